@@ -24,12 +24,13 @@ PRE_HOOKS = []  # callables(info, kwargs)
 POST_HOOKS = []  # callables(info, kwargs, pre_state)
 _installed = False
 _orig_create_kernel = None
+SHADOW = {"on": False, "calls": 0, "kernels": set(), "mismatches": []}
 
 
 class KernelInfo:
     __slots__ = (
         "kid", "gen", "gen_file", "writes", "reads", "scalars", "openmp", "num_threads",
-        "iteration_slice", "ghost_layers", "callable", "assignments", "dtype", "m1_ok", "fields_dim",
+        "iteration_slice", "ghost_layers", "callable", "assignments", "dtype", "m1_ok", "fields_dim", "twin_factory", "twin",
     )
 
     def reach(self):
@@ -100,7 +101,31 @@ class MonitoredKernel:
                         }
                     )
         pre = [h(info, kw) for h in PRE_HOOKS]
+        shadow = None
+        if SHADOW["on"] and info.twin_factory is not None:
+            # shadow execution: run the num_threads(1) OpenMP twin of this kernel on copies of the bound
+            # arrays (aliasing between arguments is preserved) and compare every written array bitwise
+            if info.twin is None:
+                info.twin = info.twin_factory()
+            memo = {}
+            skw = {}
+            for k, v in kw.items():
+                if isinstance(v, np.ndarray):
+                    key = _aview(v)
+                    if key not in memo:
+                        memo[key] = np.array(v, copy=True, order="K") if v.flags.c_contiguous else v.copy()
+                    skw[k] = memo[key]
+                else:
+                    skw[k] = v
+            info.twin(**skw)
+            shadow = skw
         out = self._real(**kw)
+        if shadow is not None:
+            SHADOW["calls"] += 1
+            SHADOW["kernels"].add(info.kid)
+            for w in info.writes:
+                if w in arrs and np.ascontiguousarray(arrs[w]).tobytes() != np.ascontiguousarray(shadow[w]).tobytes():
+                    SHADOW["mismatches"].append({"gen": info.gen, "kid": info.kid, "field": w, "threads": info.num_threads})
         for h, p in zip(POST_HOOKS, pre):
             h(info, kw, p)
         return out
@@ -164,6 +189,17 @@ def _spy_create_kernel(assignments, *a, **kw):
         info.dtype = None
     info.callable = None
     info.assignments = asg
+    info.twin = None
+    info.twin_factory = None
+    if info.openmp and info.num_threads not in (None, 1):
+        import copy
+
+        def _mk(cfg=cfg, assignments=assignments, a=a):
+            c2 = copy.deepcopy(cfg)
+            c2.cpu.openmp.num_threads = 1
+            return _orig_create_kernel(assignments, *a, config=c2).compile()
+
+        info.twin_factory = _mk
     # M1
     info.m1_ok = True
     for f, ws in info.writes.items():
